@@ -62,5 +62,7 @@ def run(pid, tier, seed):
             g.item()
         g.make_entries()
         gens.append(g)
+    import fixed_cases
+    gens.append(fixed_cases.rename_fixed())
     sem.run_value_monitor(chk, pid, "C01", Corpus("c09e", gens), seed, tier)
     return chk.finish(min_evaluations=100000, min_distinct=20)
